@@ -559,6 +559,38 @@ def respell(raw: bytes) -> tuple[bytes, int]:
     return out.getvalue(), n
 
 
+def run_respelled(job):
+    """C11 reader stage: job as for run_trace with ONE accepted assignment.  The deck is saved once and opened twice - as written, and
+    respelled; returns {"id", "out": "respelled", "lost": [property names whose readings differ], "n": respelled attributes}, or None when
+    the assignment was refused / nothing in the file could be respelled."""
+    import pptx
+    tid, kname, deck, path, acts = job
+    K = RT["kinds"][kname]
+    props = K["props"]
+    prs = open_deck(deck)
+    obj = resolve(prs, path)
+    a = [x for x in acts if x["op"] != "SaveReopen"][0]
+    pr = props[a["p"] - 1]
+    try:
+        set_prop(obj, pr["p"], None if a["op"] == "SetNone" else concretise(pr, a["v"]))
+    except Exception:           # noqa: BLE001
+        return None
+    b = io.BytesIO()
+    prs.save(b)
+    raw = b.getvalue()
+    other, n = respell(raw)
+    if n == 0:
+        return None
+    kd = {"props": props}
+    active = {p_["lazy"] for p_ in props if p_.get("lazy")}
+    ra = snapshot(resolve(pptx.Presentation(io.BytesIO(raw)), path), kd, active)["r"]
+    try:
+        rb = snapshot(resolve(pptx.Presentation(io.BytesIO(other)), path), kd, active)["r"]
+    except Exception:           # noqa: BLE001
+        return {"id": tid, "out": "respelled", "lost": ["open"], "n": n}
+    return {"id": tid, "out": "respelled", "lost": [props[i]["p"] for i, (u, v) in enumerate(zip(ra, rb)) if u != v], "n": n}
+
+
 def run_trace(job) -> dict:
     """job = (id, kind name, deck (fixture name or corpus file), object path, actions [{op,p,v,exp}]) -> observed trace."""
     tid, kname, deck, path, acts = job
